@@ -73,6 +73,8 @@ def enum_base(t):
 IGNORED_PARAMS = {("cg_conn_read", "donor_datatype"), ("cg_conn_write", "donor_datatype")}
 
 
+LINK_WRITERS = {"cg_link_write", "cgio_create_link"}
+ALWAYS_RUN = ("bound", "text-empty", "overwrite", "link-")          # "may" classes that every tier runs
 CGIO_DATA = {"cgio_read_data_type", "cgio_write_data", "cgio_write_data_type"}
 CGIO_DATA_VALID = {"s_start": "D12_ONES", "s_end": "D12_DIMS", "s_stride": "D12_ONES", "m_num_dims": "g_n2nd", "m_dims": "D12_DIMS",
                    "m_start": "D12_ONES", "m_end": "D12_DIMS", "m_stride": "D12_ONES", "m_data_type": "g_n2type"}
@@ -124,6 +126,16 @@ def arg_for12(fname, i, pn, pt, writer):
             v = CGIO_DATA_VALID[pn]
         if fname in ("cgio_compute_data_size", "cgio_check_dimensions", "cgio_copy_dimensions"):
             inv = []
+    if fname in LINK_WRITERS and pn in ("filename", "name_in_file"):
+        # both string arguments of the link entry points: the file name may be empty (a link inside the file) but not longer than
+        # CGIO_MAX_FILE_LENGTH (1024); the target path must not be empty and not longer than CGIO_MAX_LINK_LENGTH (4096)
+        inv = [("link-file-1025", "LONG1025", 1), ("link-file-5999", "LONG5999", 1)] if pn == "filename" else \
+              [("link-path-empty", '""', 1), ("link-path-4097", "LONG4097", 1), ("link-path-5999", "LONG5999", 1)]
+    elif (writer or fname.startswith("cgio_")) and "char" in pt and "const" in pt and pt.count("*") == 1 and kind in ("text", "filename", "special", "path") \
+            and v != '""' and not any("empty" in c[0] for c in inv) and re.search(r"write|create|set_|new_node", fname):
+        # a string stored as node DATA (descriptor text, family name, geometry file / format, free-text units ..): the empty string
+        # MAY be refused, but then the call must leave no node behind and delete nothing
+        inv = list(inv) + [("text-empty", '""', 0)]
     return v, kind, inv
 
 
@@ -243,6 +255,34 @@ def bound_variants(name, params, vals):
     return out
 
 
+def overwrite_variants(name, params, vals):
+    """A FAILING OVERWRITE must not update the in-memory tree first.  Pairs of calls in one session on the same (fixed) node name:
+    (valid values, then the next value of every enumeration argument) and (the Null value 0 of every enumeration argument, then
+    the valid values).  The driver runs the `first` call, dumps the view, runs the `second`; when the second FAILS the view must be
+    what it was after the first (harness/c12_drv.c: overwrite-second)."""
+    en = [i for i, (v, kind, inv) in enumerate(vals) if kind == "enum"]
+    if not en:
+        return []
+    base = [x[0] for x in vals]
+    for i, (v, kind, inv) in enumerate(vals):
+        if kind == "name" and v == "fresh()":
+            base[i] = '"Vrep"'
+    pname = params[en[0]][0]
+
+    def with_enum(f):
+        a = list(base)
+        for i in en:
+            t = params[i][1].replace("const ", "").strip()
+            a[i] = f(t, base[i])
+        return a
+    nxt = with_enum(lambda t, v: "(%s)((int)(%s) + 1)" % (t, v))
+    nul = with_enum(lambda t, v: "(%s)0" % t)
+    return [("overwrite-first-valid:%s=enum" % pname, list(base), 0, en[0], pname, "overwrite-first-valid"),
+            ("overwrite-second-next-value:%s=enum" % pname, nxt, 0, en[0], pname, "overwrite-second-next-value"),
+            ("overwrite-first-null:%s=enum" % pname, nul, 0, en[0], pname, "overwrite-first-null"),
+            ("overwrite-second-after-null:%s=enum" % pname, list(base), 0, en[0], pname, "overwrite-second-after-null")]
+
+
 def ctx_of12(name, params):
     for rx, c in CTX_RULES12:
         if re.search(rx, name):
@@ -261,7 +301,8 @@ def gen_stubs(d, path):
                                  "static cgsize_t g_vd[3], g_cd[3], g_nv, g_nc, g_s1s, g_s1e, g_psz, g_nd2, BIGP[3 * 4096]; static int g_idim, g_cdim;",
                                  "static const cgsize_t *DIMV(int cell, int d0); static const cgsize_t *RNGV(int cell, int dlo, int dhi); "
                                  "static const cgsize_t *VEC1(cgsize_t a); static const cgsize_t *RV(int kind, int which);",
-                                 "static cgsize_t D12_ONES[12], D12_DIMS[12]; static int g_n2nd; static char g_n2type[40];"], [], {}
+                                 "static cgsize_t D12_ONES[12], D12_DIMS[12]; static int g_n2nd; static char g_n2type[40];",
+                                 "static char LONG1025[1026], LONG4097[4098], LONG5999[6000];"], [], {}
     for a in api:
         name = a["name"]
         pr = protos[name]
@@ -309,6 +350,8 @@ def gen_stubs(d, path):
             variants.append(("name-empty:filename=filename", argv, 1, fi, "filename", "name-empty-overwrite"))
         if has_status and name not in C07.HAND:
             variants += bound_variants(name, params, vals)
+            if writer:
+                variants += overwrite_variants(name, params, vals)
         body = ["static int call_%s(int v) {" % name, "  switch (v) {"]
         for k, (desc, argv, must, pos, pname, cls) in enumerate(variants):
             if name in C07.HAND:
@@ -505,7 +548,7 @@ def judge(c, e, mode, must=1):
         # an error and never leaves the position silently on a different node"); the cursor is not part of C12's session view.
         # A position that MOVED (sel=CHANGED) stays a violation for them, and UNSET / CHANGED for every other entry point.
         bad.append("selection state changed: the current position is unset after the call")
-    if c.get("tree") not in ("same",):
+    if c.get("tree") not in ("same", "-"):
         bad.append("file content %s" % c.get("tree"))
     if mode == 0 and c.get("file") == "CHANGED":
         bad.append("bytes of a read-mode file changed")
@@ -526,6 +569,14 @@ def family(cls):
         return "enum"
     if cls.startswith("datatype"):
         return "datatype"
+    if cls == "text-empty":
+        return "text-empty"
+    if cls.startswith("link-"):
+        return "link-string"
+    if cls.startswith("overwrite"):
+        return "overwrite"
+    if cls == "valid":
+        return "valid-call"
     return "range"
 
 
@@ -571,7 +622,7 @@ def finding_key(fn, var, what, state, F, claims, bad_long=frozenset(), doc="Writ
         return "cgi_get_particle_pcoorPC:P:fails-without-message"
     if fn == "cgio_new_node" and changed and not accepted:
         return "cgio_new_node:args:node-created-before-validation"     # create, then set label / dimensions / data, no roll-back
-    if changed and not accepted and (fam in ("index", "range", "enum", "datatype", "handle") or doc == "Read"):
+    if changed and not accepted and (fam in ("index", "range", "enum", "datatype", "handle", "valid-call", "text-empty", "overwrite") or doc == "Read"):
         if "cgi_get_zcoorGC" in cs:
             return "cgi_get_zcoorGC:Z:container-created-before-validation"
         if "cgi_get_particle_pcoorPC" in cs:
@@ -602,7 +653,7 @@ def select_cases(entries, rng, tier, frac_entries=1.0, all_classes=True, only_va
     state-driven bound variants of every entry point, and every variant of the entry points that select / navigate)"""
     out = []
     for i, e in enumerate(entries):
-        isb = [var["cls"].startswith("bound") for var in e["variants"]]
+        isb = [var["cls"].startswith(ALWAYS_RUN) for var in e["variants"]]
         if bounds_only:
             if any(isb) and not e["fn"].startswith("cgio_"):
                 out += [(i, 0)] + [(i, v) for v in range(1, len(isb)) if isb[v]]
@@ -830,6 +881,13 @@ def run(ck):
                     valid_ok.setdefault(fn, set()).add(cfg)
                 if c.get("out") != "ok" and not c.get("openfail"):
                     observations.setdefault("valid-call:" + fn, {"what": san_summary(c), "config": cfg})
+                # whatever the reason: a call that returns an error must leave the view, the selection state and the file alone
+                if c.get("st") not in (None, "0") and c.get("out") == "ok" and not c.get("openfail"):
+                    w0 = [x for x in judge(c, e, MODES[mode], 0) if "hanged" in x or "CHANGED" in x]
+                    if w0:
+                        raw.append((fn, dict(var, cls="valid", param="call"), ["the call with the VALID arguments failed (status %s)" % c.get("st")] + w0, st,
+                                    {"level": "inv", "config": cfg, "backend": b, "state": st, "mode": mode, "entry": c["name"], "variant": 0, "desc": "valid arguments",
+                                     "what": w0, "observed": {k: c.get(k) for k in ("st", "msg", "view", "sel", "tree", "file", "out")}}))
                 # wrong open mode: a documented writer on a READ-mode handle must be refused
                 if mode == "read" and e["doc"] == "Write" and c.get("st") == "0":
                     findings.setdefault("%s:mode:read-only-handle" % fn, {"level": "inv", "config": cfg, "entry": c["name"], "variant": 0, "desc": "valid arguments, READ-mode handle",
@@ -1003,8 +1061,12 @@ def replay(ck, path):
             e = E[c["name"]]
             var = e["variants"][c["v"]]
             if c["v"] == 0:
-                if r["variant"] == 0 and c.get("st") == "0":
-                    fails = True
+                if r["variant"] == 0 and c.get("st") == "0" and mode == "read":
+                    fails = True            # a writer accepted a READ-mode handle
+                if r["variant"] == 0 and c.get("st") not in (None, "0"):
+                    w0 = [x for x in judge(c, e, MODES[mode], 0) if "hanged" in x or "CHANGED" in x]
+                    det.append({"variant": "valid arguments", "what": w0, "observed": {k: c.get(k) for k in ("st", "msg", "view", "sel", "tree", "file", "out")}})
+                    fails = fails or bool(w0)
                 continue
             w = judge(c, e, MODES[mode], var["must"])
             if var["must"] == 0:      # a value that may be legal: only a sanitizer report, or a change although the call was refused
